@@ -171,15 +171,15 @@ Proof.
     - constructor; cbn [was_closed has_close existsb orb]; try congruence. apply (i_closed _ _ _ _ I). }
   pose proof (i_closed _ _ _ _ I) as Hcl. rewrite Hc in Hcl.
   assert (Wm : 0 <= maxr c) by (unfold wf in W; lia).
-  destruct e as [t|g t|g|t ok|t ok|t]; cbn [fst snd].
-  6:{ (* Frag: nothing happens, and the judge expects nothing *)
-    split.
-    - unfold judge. rewrite <- Hcl. reflexivity.
-    - constructor; cbn [was_closed has_close existsb orb rx_all rx_time failures is_reset cur_gen ping_of has_strike]; try congruence.
-      + intros H1 K. destruct (i_fails _ _ _ _ I Hc K) as [Hf Hb]. lia.
-      + intros _. apply (i_token _ _ _ _ I Hc).
-      + intros _. apply (i_last_in _ _ _ _ I Hc).
-      + intros _. apply (i_last_ub _ _ _ _ I Hc). }
+  destruct e as [t|g t|g|t ok|t ok|t|t]; cbn [fst snd].
+  6,7: (* Frag, Sent: nothing happens, and the judge expects nothing *)
+    (split;
+     [ unfold judge; rewrite <- Hcl; reflexivity
+     | constructor; cbn [was_closed has_close existsb orb rx_all rx_time failures is_reset cur_gen ping_of has_strike]; try congruence;
+       [ intros H1 K; destruct (i_fails _ _ _ _ I Hc K) as [Hf Hb]; lia
+       | intros _; apply (i_token _ _ _ _ I Hc)
+       | intros _; apply (i_last_in _ _ _ _ I Hc)
+       | intros _; apply (i_last_ub _ _ _ _ I Hc) ] ]).
   - (* Recv *)
     split.
     + unfold judge. rewrite <- Hcl. reflexivity.
@@ -261,8 +261,8 @@ Lemma step_last : forall c s e, closed s = false -> closed (fst (step c s e)) = 
   last (fst (step c s e)) = match ev_rx e with Some t => t | None => last s end.
 Proof.
   intros c s e Hc. unfold step. rewrite Hc.
-  destruct e as [t|g t|g|t ok|t ok|t]; cbn [fst ev_rx]; intros H1.
-  6:{ reflexivity. }
+  destruct e as [t|g t|g|t ok|t ok|t|t]; cbn [fst ev_rx]; intros H1.
+  6,7: reflexivity.
   - reflexivity.
   - unfold pong_cb. destruct (token (notify c s t) =? g); reflexivity.
   - unfold pong_cb. destruct (token s =? g); reflexivity.
